@@ -88,6 +88,7 @@ type PodRec struct {
 	reservedAtFilter []string
 	FilterConfGen    int  // configuration generation at the last filter
 	PoolSizeAtFilter int  // size of the pod's pool visible at the last filter (-1 = no Pool object)
+	UsedAtFilter     int  // IPs keyed to pods of the pod's deployment right before the last filter
 	Exempt           bool // its IP was legitimately de-configured by a reload
 	ProvAtBind       bool
 }
@@ -226,6 +227,9 @@ func (s *Sim) genWorkloads(withTApp bool) {
 		switch x := rng.Intn(10); {
 		case x < 4:
 			wl.Kind = KSts
+			if rng.Intn(6) == 0 {
+				wl.Pool = []string{"pa", "pb"}[rng.Intn(2)] // a non-deployment workload may carry the pool annotation too
+			}
 		case x < 8:
 			wl.Kind = KDp
 			wl.Pool = poolNames[rng.Intn(len(poolNames))]
@@ -259,6 +263,7 @@ func (s *Sim) genWorkloads(withTApp bool) {
 			wl.Ranges = s.genRanges()
 		}
 		s.WLs = append(s.WLs, wl)
+		s.replHist[wl.Name] = append(s.replHist[wl.Name], wl.Replicas)
 		s.applyWorkload(wl)
 	}
 	// deliver the initial workload objects
@@ -479,6 +484,15 @@ func (s *Sim) stepFilter(p *corev1.Pod) ([]string, error) {
 	}
 	sort.Strings(r.heldAtFilter)
 	sort.Strings(r.reservedAtFilter)
+	r.UsedAtFilter = 0
+	if r.WL.Kind == KDp {
+		appPods := model.PodKey(r.WL.Pool, "dp", NS, r.WL.Name, "")
+		for _, e := range dump {
+			if strings.HasPrefix(e.Key, appPods) && e.Key != s.prefixKey(r.WL) {
+				r.UsedAtFilter++
+			}
+		}
+	}
 	nodes, _, err := s.W.Plugin.Filter(p, s.nodes())
 	r.Offered = nil
 	for _, n := range nodes {
